@@ -44,9 +44,10 @@ WStep(cfg, dl, st, w) ==
       c == IF ~w.ok
            THEN << <<"no_panic", ~w.panic>>,
                    <<"refused_write_emits_nothing", w.out = <<>> >>,
-                   <<"valid_write_accepted", ~enc>> >>
+                   <<"valid_write_accepted", ~enc \/ w.inj>> >>
            ELSE << <<"no_panic", ~w.panic>>,
                    <<"v1_id_above_255_refused", ~(cfg.v = 1 /\ WId(w) > 255)>>,
+                   <<"transport_error_reported", ~w.inj>>,
                    <<"one_whole_frame", isF /\ p.n = Len(w.out)>>,
                    <<"version", isF => p.f.v = cfg.v>>,
                    <<"identity", isF => (p.f.sys = cfg.sys /\ p.f.comp = (IF cfg.comp = 0 THEN 1 ELSE cfg.comp))>>,
